@@ -17,7 +17,6 @@ import os
 import re
 import shutil
 import subprocess
-import threading
 import time
 
 from . import c20ref as R
@@ -56,20 +55,11 @@ def _driver():
 
 
 HANG_CPU_S = 60.0          # CPU-seconds (+ (n+m)/50) of a single-threaded run before the livelock rule fires
-HANG_CPU_REPEAT_S = 6.0    # ... for further occurrences of a key already convicted with the full budget in this run
 MEM_LIMIT = 8 << 30        # address-space limit per application process (they normally map ~1.5 GB)
-_hang_lock = threading.Lock()
-_hang_keys = set()
 
 
-def hang_budget(key, size):
-    with _hang_lock:
-        return (HANG_CPU_REPEAT_S + size / 500.0) if key in _hang_keys else (HANG_CPU_S + size / 50.0)
-
-
-def hang_convicted(key):
-    with _hang_lock:
-        _hang_keys.add(key)
+def hang_budget(size):
+    return HANG_CPU_S + size / 50.0
 
 
 def _child_setup():
@@ -198,7 +188,7 @@ class Ctx:
         limit = timeout or (MPI_TIMEOUT if mpi else APP_TIMEOUT)
         budget = None
         if not mpi and self.graph is not None and "-t" in args:
-            budget = hang_budget(self.key("hang"), self.graph.n + self.graph.m())
+            budget = hang_budget(self.graph.n + self.graph.m())
         text = ""
         for attempt in (0, 1):
             kind, rc, text, cpu = self._once(cmd, env, limit * (attempt + 1), budget * max(1, threads) if budget else None)
@@ -216,7 +206,6 @@ class Ctx:
                         budget = None       # unexplained slowness of the multi-threaded run: wall-clock limit only
                         continue
                     text = text2
-                hang_convicted(self.key("hang"))
                 lines = [l for l in text.splitlines() if not l.startswith(("STAT", "PARAM"))]
                 self.violation("hang", {"cmd": self.show_cmd(pcmd), "cpu_seconds_consumed_single_threaded": round(pcpu, 1),
                                         "evidence": "a -t 1 run consumed this much CPU time (not wall-clock) on a graph of %d "
@@ -1233,12 +1222,10 @@ DIST_CASES = {"dist-bfs": 40, "dist-sssp": 40, "dist-cc": 36, "dist-kcore": 36, 
 
 
 def comp_name(app, vname, vargs):
-    """component = application + algorithm; input modes (mst) and the serial/parallel switch of the matching
-    algorithms are part of the case signature, not of the component"""
+    """component = application + algorithm variant; the two input modes of the spanning-tree application are one
+    algorithm and belong to the case signature, not to the component"""
     if app == "mst":
         return app
-    if app == "matching":
-        return "%s:%s" % (app, vargs[0])
     return "%s:%s" % (app, vname)
 
 
